@@ -420,6 +420,22 @@ def gen_cases(rng, tier):
     return cases
 
 
+def gen_cases_dense(rng, tier):
+    """the signed variant on DENSE graphs with a wide weight range (7..9 vertices, about 3n edges, weights 1..20 / 1..60, random edge order): supports with several
+    entries whose signed edges fall into different ranks' slices AND several into one slice, shortest odd cycles through three and more signed edges
+    (own generator stream)"""
+    cases = []
+    for i in range(70 if tier == "quick" else 400):
+        n = rng.randint(7, 9); m = min(n * (n - 1) // 2, 3 * n + rng.randint(-2, 2))
+        pairs = [(u, v) for u in range(n) for v in range(u + 1, n)]; rng.shuffle(pairs)
+        W = rng.choice([20, 20, 60])
+        es = [(u, v, rng.randint(1, W)) if rng.random() < 0.5 else (v, u, rng.randint(1, W)) for u, v in pairs[:m]]
+        g = (n, es)
+        ty = "I" if i % 2 else "D"
+        cases.append(("signed %s 0 %d %s" % (ty, 0 if i % 5 == 0 else 200000 + i, gen.graph_tokens(g)), g, "dense-wide"))
+    return cases
+
+
 def gen_cases64(rng, tier):
     """the five entry points instantiated with long long weights above 2^53 (own generator stream)"""
     graphs = []
@@ -752,6 +768,7 @@ def check(tier, seed):
         c64 = gen_cases64(random.Random(seed * 7919 + 404), tier)      # long long weights above 2^53 (own stream: the double / int stream is unchanged)
         cases += c64
         c.extra["cases_64bit_weights"] = len(c64)
+        cases += gen_cases_dense(random.Random(seed * 7919 + 406), tier)
         for P in Ps:
             batches.append((P, cases, "%s_P%d" % (tier, P), 1))
         for P in (2, 3):                         # sizes beyond narrow index types: MPI jobs of their own
